@@ -195,7 +195,7 @@ theorem multipleOf_consts : MultipleOf_consts = [("1e-10", 4457293557087583675),
 set_option maxRecDepth 100000 in
 theorem frames :
     Gen.NumDispatch.compareNumeric_frame =
-      "if !reflectx.IsNumeric(value) || !reflectx.IsNumeric(limit) { return 0, false }; a, okA := toNum(value); b, okB := toNum(limit); if !okA || !okB { x, y, ok := toFloat64Pair(value, limit) if !ok { return 0, false } return cmpFloats(x, y) }; «switch»" ∧
+      "if !reflectx.IsNumeric(value) || !reflectx.IsNumeric(limit) { return 0, false }; a, okA := toNum(value); b, okB := toNum(limit); if !okA || !okB { if isBig(value) || isBig(limit) { if c, ok, done := cmpBig(value, limit); done { return c, ok } } x, y, ok := toFloat64Pair(value, limit) if !ok { return 0, false } return cmpFloats(x, y) }; «switch»" ∧
     Gen.NumDispatch.cmpFloats_frame =
       "«switch»" ∧
     Gen.NumDispatch.cmpInts_frame =
@@ -209,7 +209,7 @@ theorem frames :
     Gen.NumDispatch.cmpIntFloat_frame =
       "const two63, two64 = 9223372036854775808.0, 18446744073709551616.0; «nan/inf switch»; t := math.Trunc(f); var c int; «if n.kind == numUint {guards; c = cmp.Compare(n.u, uint64(t))} else {guards; c = cmp.Compare(n.i, int64(t))}»; if c != 0 { return c, true }; return cmp.Compare(t, f), true" ∧
     Gen.NumDispatch.MultipleOf_text =
-      "if !reflectx.IsNumeric(value) || !reflectx.IsNumeric(divisor) { return false }; if a, ok := toNum(value); ok && a.kind != numFloat { if b, ok := toNum(divisor); ok && b.kind != numFloat { return multipleOfInts(a, b) } }; val, div, ok := toFloat64Pair(value, divisor); if !ok || div == 0 { return false }; epsilon := max(1e-10, math.Abs(div)*1e-6); remainder := math.Abs(math.Mod(val, div)); return remainder < epsilon || math.Abs(remainder-math.Abs(div)) < epsilon" := by
+      "if !reflectx.IsNumeric(value) || !reflectx.IsNumeric(divisor) { return false }; if a, ok := toNum(value); ok && a.kind != numFloat { if b, ok := toNum(divisor); ok && b.kind != numFloat { return multipleOfInts(a, b) } }; if isBig(value) || isBig(divisor) { if x, ok := toBig(value); ok { if y, ok := toBig(divisor); ok { return y.Sign() != 0 && new(big.Int).Rem(x, y).Sign() == 0 } } }; val, div, ok := toFloat64Pair(value, divisor); if !ok || div == 0 { return false }; epsilon := max(1e-10, math.Abs(div)*1e-6); remainder := math.Abs(math.Mod(val, div)); return remainder < epsilon || math.Abs(remainder-math.Abs(div)) < epsilon" := by
   refine ⟨rfl, rfl, rfl, rfl, rfl, rfl, rfl, rfl⟩
 
 /-! ## schema methods → `internal/checks` → `validate` -/
